@@ -76,7 +76,7 @@ class C06(Prop):
             yield dict(base, orig=[a], defaults={a: 11}, ctor=[[a, b]], batches=[[[b, c]]])             # a stepping stone: a -> b at construction, b -> c later
         # whatever the seed: TWIN histories — the same (old, new) pairs applied once as SEQUENTIAL calls on one node and once as ONE parallel
         # batch on another node of the same process (a swap / a shift): what a history means depends on how it was batched
-        for target in ("fn", "graph", "fn-out", "interrupt"):
+        for target in ("fn", "graph", "fn-out", "graph-out", "interrupt"):
             a, b, c = rng.sample(POOL, 3)
             for pairs in ([[a, b], [b, a]], [[a, b], [b, c]]):
                 base = {"target": target, "defaults": {}, "ctor": None, "mapOver": [], "omit": [], "seedvals": rng.randint(0, 50), "use_first": False, "use_between": False}
